@@ -81,7 +81,9 @@ class Deflate(object):
 
         data.append(self._decompressobj.decompress(b"\x00\x00\xff\xff"))
         payload = b''.join(data)
-        if self.reset_decompress:
+        if self.reset_decompress or self._decompressobj.unused_data:
+            # Unused data means the message ended with a final (BFINAL)
+            # block, which ends the deflate stream (RFC 7692 7.2.3.4)
             self.reset_decompressor()
         return payload
 
